@@ -88,6 +88,14 @@ func (s *Server) ProtocolInstance() *protocol.Protocol {
 
 func (s *Server) Start() {
 	p := s.ProtocolInstance()
+	// We create our own vars for these channels since they get replaced on restart.
+	// They must be captured before the protocol is started (and not inside the
+	// cleanup goroutine): once it runs, a complete peer session including the
+	// next restart can be handled before this function continues, and we would
+	// pick up (and close) the next instance's channels
+	doneChan := p.DoneChan()
+	requestTxIdsResultChan := s.requestTxIdsResultChan
+	requestTxsResultChan := s.requestTxsResultChan
 	p.Logger().
 		Debug("starting server protocol",
 			"component", "network",
@@ -96,12 +104,6 @@ func (s *Server) Start() {
 		)
 	p.Start()
 	// Start goroutine to cleanup resources on protocol shutdown
-	// We create our own vars for these channels since they get replaced on restart.
-	// They must be captured here, not inside the goroutine: if it is scheduled
-	// after a restart it would pick up (and close) the next instance's channels
-	doneChan := p.DoneChan()
-	requestTxIdsResultChan := s.requestTxIdsResultChan
-	requestTxsResultChan := s.requestTxsResultChan
 	go func() {
 		<-doneChan
 		close(requestTxIdsResultChan)
